@@ -26,7 +26,7 @@ LEVEL_TEXT = ("Termination and zero-variance-beyond-rank are model-checked (live
               "3x3 over {-1,0,1} in the thorough tier) and every recorded execution is accepted or rejected by TLC against the guarded model.")
 LEVEL_NOTE = ("Trusts TLC, the placement of hook H4, the harness's classification of returned components (finite / variance <= 1e-9 %) and its "
               "double-precision ledger residuals; exhaustive only within the stated small scopes; the iteration budget decides non-termination "
-              "(2e5 passes quick, 1e6 thorough, three orders above what a converging fit on <= 3x3 data needs).")
+              "(1e5 passes quick, 1e6 thorough, three orders above what a converging fit on <= 3x3 data needs).")
 
 PAR = int(os.environ.get("VERIF_PAR", "8"))
 UNGUARDED = ["PCA", "PLS", "CPCA"]
@@ -131,7 +131,7 @@ def build_cases(ctx, recs):
                     kind = "zero" if rk == 0 else ("const-block" if cb else ("beyond-rank" if npc > rk else "within-rank"))
                     add("CPCA", kind, e, req, npc, rk, rk, noise, cblk=cb, widths=w)
         if e["kind"] == "resp":
-            for req in ([1, nc + 2] if q else range(1, nc + 3)):
+            for req in (([1, nc + 2] if idx % 2 == 0 else [nc]) if q else range(1, nc + 3)):
                 npc = min(req, nc)
                 if e["ycst"]:
                     kind, rlo, rhi = "const-response", 0, 0
@@ -145,11 +145,12 @@ def build_cases(ctx, recs):
             c2 = cov.get((json.dumps(e["cells"]), tuple(y2)))
             if c2 is not None and (not q or idx % 2 == 0):
                 ycst = e["ycst"] and c2[1]
-                anycov = e["cov"] or c2[0]
                 npc = nc
                 if ycst:
                     kind, rlo, rhi = "const-response", 0, 0
-                elif not anycov:
+                elif not (e["cov"] and c2[0]):
+                    # LVCalc starts from ONE response column: if that column has no covariance with X the first weight vector is
+                    # null although the other column may have some - whether a latent variable "exists" is then not decided here
                     kind, rlo, rhi = "no-covariance", 0, rk
                 else:
                     kind, rlo, rhi = ("beyond-rank" if npc > rk else "within-rank"), 1, rk
@@ -248,18 +249,22 @@ def run_cases(ctx, cases, budget, child_timeout, maxdiv, label):
             c = byid.get(block[0].get("id")) if block and block[0].get("e") == "Reset" else None
             ctx.violation(sig, what, dict(kind="case", case=c, events=block[:14]))
 
-        suspect = [b for b in blocks if any(e.get("e") in ("Diverge", "Hang", "Crash") for e in b)]
-        clean = [b for b in blocks if not any(e.get("e") in ("Diverge", "Hang", "Crash") for e in b)]
-        # diverging executions: TLC confirms on the first block of every (site, kind) that no action matches; the others carry the same signature
+        def is_suspect(b):
+            return any(e.get("e") in ("Diverge", "Hang", "Crash") or
+                       (e.get("e") == "Done" and (e.get("fin") != 1 or "nan" in e.get("evals", []) or e.get("bvar") != "fin")) for e in b)
+        suspect = [b for b in blocks if is_suspect(b)]
+        clean = [b for b in blocks if not is_suspect(b)]
+        # diverging / non-finite executions: TLC decides on the first block of every signature that no action matches; the other blocks of
+        # the same signature (there can be thousands on a tree without guards) are counted, not re-validated
         firsts = {}
         for b in suspect:
-            firsts.setdefault((b[0]["site"], b[0]["kind"]), b)
+            firsts.setdefault(_sig(b, [e for e in b if e.get("e") == "Done"][-1] if any(e.get("e") == "Done" for e in b) else b[-1])[0], b)
         if firsts:
             ev = [e for b in firsts.values() for e in b]
             n = trace.check_trace(ctx, "TraceNipals", "Trace_Nipals.cfg", "Trace_Nipals_prop.cfg", ev, on_reject, drop="block", max_rounds=len(firsts) + 2,
                                   label="trace_nipals_diverging_" + label)
             if n != len(firsts):
-                raise InfraError("a Diverge/Hang/Crash execution was accepted by TraceNipals (%d rejected of %d)" % (n, len(firsts)))
+                raise InfraError("a diverging / non-finite execution was accepted by TraceNipals (%d rejected of %d)" % (n, len(firsts)))
         nchunk = 0
         CH = 4000
         for i in range(0, len(clean), CH):
@@ -277,7 +282,7 @@ def run(ctx):
     ctx.assumptions += [
         "TLC explores Nipals.tla exhaustively within rank 0..3 (4), components 1..5 (6), contraction budget 3 (5) only; the class transfer function of a pass was transcribed from pca.c / pls.c / cpca.c by hand",
         "hook H4 is called once per pass of the three while(1) loops with (t't | u'u, normaliser, convergence value); components returned without any pass are reported as `Null` by the harness",
-        "non-termination of the real code is decided by an iteration budget (2e5 passes quick / 1e6 thorough) or, for routines without a hook, a 20 s wall-clock watchdog per child",
+        "non-termination of the real code is decided by an iteration budget (1e5 passes quick / 1e6 thorough) or, for routines without a hook, a 20 s wall-clock watchdog per child",
         "a returned component counts as zero-variance when its explained variance is <= 1e-9 percent (rounding noise left by deflation is ~1e-28); ledger residuals are computed by the harness in double precision, TLC compares them with TolAlg = 1e-8",
         "PLS: the number of latent variables that exist is only bounded (first LV exists iff X_c'y_c # 0, at most rank X_c); TLC searches a consistent count",
         "ASan/UBSan build; every fit in its own forked child with one processor forced (hook H2)",
@@ -287,8 +292,8 @@ def run(ctx):
     cases = build_cases(ctx, recs)
     ctx.note("%d cases (PCA %d, PLS %d, CPCA %d, MLR-LOO %d, k-means %d, Nelder-Mead %d)" % ((len(cases),) + tuple(sum(1 for c in cases if c["site"] == s)
              for s in ("PCA", "PLS", "CPCA", "MLRLOO", "KMEANS", "NM"))))
-    budget = 200000 if ctx.quick else 1000000
-    blocks, clean = run_cases(ctx, cases, budget, 20, 2 if ctx.quick else 3, "main")
+    budget = 100000 if ctx.quick else 1000000
+    blocks, clean = run_cases(ctx, cases, budget, 8 if ctx.quick else 20, 1 if ctx.quick else 3, "main")
     ctx.cov["rule"] = ("inputs enumerated by TLC (NipalsGen: matrices <= 3x3 over {-1,0,1}%s, dyadic perturbations 2^-3, all responses in {0,1}^rows) crossed with component "
                        "requests 1..cols+2 / block splits / cluster counts; a case = one fit in a child process keyed by (site, exact rank, npc - rank, kind, shape, scaling); "
                        "non-trivial = more components than rank, rank 0, constant response, no covariance, constant block, duplicate rows or rank-deficient design"
